@@ -118,6 +118,51 @@ def conversion_factors():
     return sorted(out)
 
 
+def dispatch_table():
+    """install_files: `if adf.lower() == '<key>': for args in configuration[adf]: install_x(*args, download=…, …)`
+    -> [(key, function name, 'kw=value …')]; anything of another shape is recorded as ('?', source text) so that the
+    pinned table stops matching"""
+    tree = ast.parse(open(os.path.join(REPO, 'cherab/openadas/install.py')).read())
+    table, installers = [], []
+    for node in tree.body:
+        if isinstance(node, ast.FunctionDef) and node.name.startswith('install_adf'):
+            # installer -> parser called, notation class, repository update functions called (with their last argument)
+            parsers, notation, updates = [], [], []
+            for sub in ast.walk(node):
+                if isinstance(sub, ast.Call):
+                    fn = ast.unparse(sub.func)
+                    if fn.startswith('parse_adf'):
+                        parsers.append(fn)
+                    elif fn == '_notation_adf11_adas2cherab' and len(sub.args) == 2:
+                        notation.append(ast.unparse(sub.args[1]).strip('"\''))
+                    elif fn.startswith('repository.update_'):
+                        updates.append(fn[len('repository.'):] + '(' + ','.join(ast.unparse(a) for a in sub.args[1:]) + ')')
+            installers.append((node.name, ' '.join(parsers), ' '.join(notation), ' '.join(updates)))
+        if isinstance(node, ast.FunctionDef) and node.name == 'install_files':
+            loops = [n for n in node.body if isinstance(n, ast.For)]
+            if len(loops) != 1 or ast.unparse(loops[0].iter) != 'configuration' or len(node.body) != 1:
+                table.append(('?', 'install_files body', ast.unparse(node)[:200]))
+                continue
+            var = ast.unparse(loops[0].target)
+            for st in loops[0].body:
+                ok = False
+                if (isinstance(st, ast.If) and not st.orelse and isinstance(st.test, ast.Compare) and len(st.test.ops) == 1
+                        and isinstance(st.test.ops[0], ast.Eq) and ast.unparse(st.test.left) == var + '.lower()'
+                        and isinstance(st.test.comparators[0], ast.Constant) and len(st.body) == 1 and isinstance(st.body[0], ast.For)
+                        and ast.unparse(st.body[0].iter) == 'configuration[%s]' % var and len(st.body[0].body) == 1
+                        and isinstance(st.body[0].body[0], ast.Expr) and isinstance(st.body[0].body[0].value, ast.Call)):
+                    call = st.body[0].body[0].value
+                    argv = ast.unparse(st.body[0].target)
+                    if (isinstance(call.func, ast.Name) and len(call.args) == 1 and isinstance(call.args[0], ast.Starred)
+                            and ast.unparse(call.args[0].value) == argv):
+                        kws = ' '.join('%s=%s' % (k.arg, ast.unparse(k.value)) for k in call.keywords)
+                        table.append((st.test.comparators[0].value, call.func.id, kws))
+                        ok = True
+                if not ok:
+                    table.append(('?', 'unrecognised', ast.unparse(st)[:200]))
+    return table, installers
+
+
 def scan():
     regexes, slices, rvs, inlists, divs, norms = [], [], [], [], [], []
     probe = None
@@ -132,8 +177,9 @@ def scan():
         norms += sc.norms
         if sc.probe is not None:
             probe = sc.probe
+    table, installers = dispatch_table()
     return dict(regexes=regexes, slices=slices, readvalues=rvs, inlists=inlists, divs=divs, norms=norms, probe=probe,
-                factors=conversion_factors())
+                factors=conversion_factors(), dispatch=table, installers=installers)
 
 
 def probe_accepts_minus(pat):
@@ -180,6 +226,16 @@ def render(d):
     L.append('')
     L.append('def conversionFactors : List (String × String) := [')
     L.append(',\n'.join('  (%s, %s)' % (lean_str(k), lean_str(v)) for k, v in d['factors']))
+    L.append(']')
+    L.append('')
+    L.append('/-- install_files: configuration key (compared after `.lower()`) → installer called → keyword arguments passed on -/')
+    L.append('def dispatch : List (String × String × String) := [')
+    L.append(',\n'.join('  (%s, %s, %s)' % (lean_str(k), lean_str(f), lean_str(kw)) for k, f, kw in d['dispatch']))
+    L.append(']')
+    L.append('')
+    L.append('/-- the `install_adf*` functions defined in install.py, each with: parser called, notation class passed to `_notation_adf11_adas2cherab`, repository update calls -/')
+    L.append('def installers : List (String × String × String × String) := [')
+    L.append(',\n'.join('  (%s, %s, %s, %s)' % tuple(lean_str(x) for x in row) for row in d['installers']))
     L.append(']')
     L.append('')
     L.append('end Cherab.Gen.AdfLex')
